@@ -18,7 +18,14 @@ def run(ctx):
     def once():
         t = ctx.drive(["c11"], out_name="c11.ndjson")
         ev = vlib.read_ndjson(t)
-        return ev, ctx.judge("Trace_C11", t, timeout=3000, parallel=8, xmx="3g")
+        parts = [(ev, ctx.judge("Trace_C11", t, timeout=3000, parallel=8, xmx="3g"))]
+        # configurations: the multiplication tables the row operations use are built at package initialisation;
+        # they must not depend on GOMAXPROCS
+        from checks import archive
+        for procs in ((3, 5, 6, 7, 12) if ctx.thorough else (3, 7)):
+            t2 = ctx.drive(["c11", "-mode", "procs"], out_name="c11-procs%d.ndjson" % procs, env_extra={"GOMAXPROCS": str(procs)})
+            parts.append((vlib.read_ndjson(t2), ctx.judge("Trace_C11", t2, timeout=3000, parallel=2, xmx="3g")))
+        return archive.combine(*parts)
     events, verdicts = once()
 
     def brief(e):
